@@ -178,8 +178,10 @@ impl FunctionMap {
 /// For example, "/foo/bar" matches "/foo/*"
 pub fn key_match(key1: &str, key2: &str) -> bool {
     if let Some(i) = key2.find('*') {
+        // `i` is a byte offset into key2 and need not be a char boundary of
+        // key1: compare bytes
         if key1.len() > i {
-            return key1[..i] == key2[..i];
+            return key1.as_bytes()[..i] == key2.as_bytes()[..i];
         }
         key1[..] == key2[..i]
     } else {
@@ -192,7 +194,7 @@ pub fn key_match(key1: &str, key2: &str) -> bool {
 /// "bar/foo" will be returned.
 pub fn key_get(key1: &str, key2: &str) -> String {
     if let Some(i) = key2.find('*') {
-        if key1.len() > i && key1[..i] == key2[..i] {
+        if key1.len() > i && key1.as_bytes()[..i] == key2.as_bytes()[..i] {
             return key1[i..].to_string();
         }
     }
